@@ -83,6 +83,8 @@ struct Ctx {
     rep: Report,
     replay_dir: String,
     prop: String,
+    /// how to re-run this shard deterministically up to the current history (for replay files of histories)
+    shard_replay: String,
 }
 
 impl Ctx {
@@ -91,8 +93,15 @@ impl Ctx {
         h.bytes(descr.as_bytes());
         let sig = format!("{}:{:016x}", what, h.finish());
         let file = format!("{}/{}-{}-{}-{:016x}.json", self.replay_dir, self.prop, config_name(), profile_name(), h.finish());
+        // single operations replay by their operands; histories replay by re-running the shard (same seed,
+        // stop right after this history)
+        let how = if what.starts_with("history") {
+            self.shard_replay.replace("@EVALS@", &format!("{}", self.rep.evals + 1))
+        } else {
+            format!("\"replay_args\":[\"--op\",{}]", json_str(descr))
+        };
         let body = format!(
-            "{{\"property\":{},\"engine\":\"eng_bigint\",\"config\":{},\"profile\":{},\"what\":{},\"operation\":{},\"observed\":{},\"expected\":{},\"replay_args\":[\"--op\",{}]}}\n",
+            "{{\"property\":{},\"engine\":\"eng_bigint\",\"config\":{},\"profile\":{},\"what\":{},\"operation\":{},\"observed\":{},\"expected\":{},{}}}\n",
             json_str(&self.prop),
             json_str(config_name()),
             json_str(profile_name()),
@@ -100,7 +109,7 @@ impl Ctx {
             json_str(descr),
             json_str(observed),
             json_str(expected),
-            json_str(descr)
+            how
         );
         let _ = std::fs::create_dir_all(&self.replay_dir);
         if self.rep.violations.len() < 40 {
@@ -1243,7 +1252,19 @@ fn main() {
     let seed = args.u64("seed", 1);
     let shard = args.shard();
     let rep = Report::new(&prop, &args);
-    let mut ctx = Ctx { rep, replay_dir: args.str("replay-dir", "/verif/replays"), prop: prop.clone() };
+    let mut ja: Vec<String> = vec!["\"--max-evals\"".into(), "\"@EVALS@\"".into(), "\"--history-ops\"".into(), format!("\"{}\"", args.u64("history-ops", 400))];
+    if args.has("sweep-depth") {
+        ja.push("\"--sweep-depth\"".into());
+        ja.push(format!("\"{}\"", args.u64("sweep-depth", 0)));
+    }
+    let shard_replay = format!(
+        "\"shard_replay\":{{\"idx\":{},\"shards\":{},\"seed\":{},\"budget\":3000,\"job_args\":[{}],\"miriflags\":\"\"}}",
+        shard.0,
+        shard.1,
+        seed,
+        ja.join(",")
+    );
+    let mut ctx = Ctx { rep, replay_dir: args.str("replay-dir", "/verif/replays"), prop: prop.clone(), shard_replay };
     ctx.rep.extra.insert("config".into(), json_str(config_name()));
     ctx.rep.extra.insert("profile".into(), json_str(profile_name()));
     ctx.rep.extra.insert("backend".into(), json_str(if HEAP { "HeapVec" } else { "StackVec" }));
